@@ -183,11 +183,28 @@ def check_pair(ctx):
     found = 0
     for ckey, one, two in pairs:
         klass = program.cls(ckey)
+        called = {}
+        for meth in klass.methods.values():
+            for call in calls_in(meth.node):
+                if isinstance(call.func, ast.Attribute) and dotted(
+                        call.func.value) == 'self' and \
+                        call.func.attr in klass.methods:
+                    called.setdefault(meth.name, set()).add(call.func.attr)
+        helpers = {h for hs in called.values() for h in hs
+                   if h.startswith('_') and not h.endswith('__')}
         for meth in klass.methods.values():
             if meth.name == '__init__':
                 continue
+            if meth.name in helpers:
+                # a private helper doing one half of the update for the
+                # methods that call it: judged with its callers
+                continue
             w_one, _ = _writes(meth, one)
             w_two, _ = _writes(meth, two)
+            for hname in called.get(meth.name, ()):
+                if hname in helpers:
+                    w_one = w_one or _writes(klass.methods[hname], one)[0]
+                    w_two = w_two or _writes(klass.methods[hname], two)[0]
             if not w_one and not w_two:
                 continue
             found += 1
@@ -259,9 +276,28 @@ def check_pair_shift(ctx):
         if meth is None:
             raise AnalysisError(f'PAIR-SHIFT: RList.{name} not found')
         pivot = meth.params[1]
+        # the re-numbering may live in a private helper of the class
+        scopes = [meth] + [klass.methods[c.func.attr]
+                           for c in calls_in(meth.node)
+                           if isinstance(c.func, ast.Attribute) and dotted(
+                               c.func.value) == 'self' and
+                           c.func.attr in klass.methods and
+                           c.func.attr.startswith('_') and
+                           not c.func.attr.endswith('__')]
         comps = [node for node in walk_local(meth.node)
                  if isinstance(node, ast.ListComp) and isinstance(
                      node.elt, ast.IfExp)]
+        if not comps and len(scopes) > 1:
+            for helper in scopes[1:]:
+                for node in walk_local(helper.node):
+                    if isinstance(node, ast.ListComp) and isinstance(
+                            node.elt, ast.IfExp):
+                        n += 1
+                        ctx.undecided('PAIR-SHIFT', meth,
+                                      f'RList.{name}: re-numbered by the '
+                                      f'helper {helper.name}: '
+                                      f'{txt(node.elt)[:50]}',
+                                      at=helper.where(node))
         for comp in comps:
             var = txt(comp.generators[0].target)
             got = _shift_table(comp.elt, var, pivot)
@@ -290,7 +326,8 @@ def check_pair_shift(ctx):
                            f'position is dropped ({txt(lam) if lam else "?"}'
                            f')', True if good else None,
                            at=meth.where(comp), nontrivial=False)
-        loops = [node for node in walk_local(meth.node)
+        loops = [node for scope in scopes
+                 for node in walk_local(scope.node)
                  if isinstance(node, ast.For) and 'self._index.items()' in
                  txt(node.iter)]
         ctx.decide('PAIR-SHIFT', meth, f'RList.{name}: every key of the '
